@@ -880,15 +880,17 @@ impl<'t> Match<'t> {
         match self {
             Self::NoCapture(m) => m.start(),
             Self::WithCapture(m) => {
+                //the begin of the leftmost capture group that took part (only the captured parts are returned),
+                //falls back to the overall match if no group took part
                 let mut begin = None;
-                for group in m.iter() {
+                for group in m.iter().skip(1) {
                     if let Some(group) = group {
-                        if begin.is_none() || begin.unwrap() < group.start() {
+                        if begin.is_none() || begin.unwrap() > group.start() {
                             begin = Some(group.start());
                         }
                     }
                 }
-                begin.expect("there must be at least one capture group that was found")
+                begin.unwrap_or_else(|| m.get(0).map(|g| g.start()).unwrap_or(0))
             }
         }
     }
@@ -898,15 +900,16 @@ impl<'t> Match<'t> {
         match self {
             Self::NoCapture(m) => m.end(),
             Self::WithCapture(m) => {
+                //the end of the rightmost capture group that took part, falls back to the overall match if no group took part
                 let mut end = None;
-                for group in m.iter() {
+                for group in m.iter().skip(1) {
                     if let Some(group) = group {
-                        if end.is_none() || end.unwrap() < group.start() {
-                            end = Some(group.start());
+                        if end.is_none() || end.unwrap() < group.end() {
+                            end = Some(group.end());
                         }
                     }
                 }
-                end.expect("there must be at least one capture group that was found")
+                end.unwrap_or_else(|| m.get(0).map(|g| g.end()).unwrap_or(0))
             }
         }
     }
